@@ -938,7 +938,7 @@ pub fn run(ctx: &Ctx) -> Report {
         rep.machinery(e);
         return rep;
     }
-    let budget = ctx.budget(50.0, 1700.0);
+    let budget = ctx.budget(42.0, 1700.0);
     let nthreads = rayon::current_num_threads().max(1);
     let roots: Vec<PathBuf> = (0..nthreads).map(|i| ctx.scratch.join(format!("w{i}"))).collect();
     let only = std::env::var("VMC_C30_ONLY").unwrap_or_default();
